@@ -46,7 +46,27 @@ def hook(run, i, ev):
         mon.count("query_pairs_seen", len(res))
 
 
+def run_zipf(case, ctx, mon):
+    s, ghost, cells, ids = H.build_zipf(case, mon)
+    for k in ids:
+        got = int(s[k])
+        if got > ghost[k]:
+            mon.check(False, "hh[key]<=true-count", key=hx(k), got=got, true=ghost[k], cfg=case["cfg"], regime="zipf")
+    mon.tick("hh[key]<=true-count", len(ids))
+    for thr in (0, None):
+        res = s.query(10**9, thr)
+        for key, cnt in res:
+            f = ghost.get(bytes(key), 0)
+            mon.check(int(cnt) <= f and (int(cnt) == 0 or f > 0), "query-pair:count<=true-count-and-key-was-added", key=hx(key), count=int(cnt), true=f,
+                      cfg=case["cfg"], regime="zipf")
+        mon.count("query_pairs_seen", len(res))
+    mon.count("zipf_realistic_cases")
+    mon.nontrivial(True)
+
+
 def run_case(case, ctx, mon):
+    if case.get("type") == "zipf":
+        return run_zipf(case, ctx, mon)
     r = H.Run(case, mon, hook)
     r.go()
     mon.nontrivial(r.shared or r.alias_in_cell)
@@ -54,6 +74,7 @@ def run_case(case, ctx, mon):
 
 def gen_cases(ctx):
     rng = ctx.rng("cases")
+    yield H.zipf_case(rng, ctx)
     n = 1500 if ctx.quick else 10**9
     for _ in range(n):
         yield H.gen_history_case(rng, ctx, big=0.12)
